@@ -218,10 +218,10 @@ class SqlStorage(MutableMapping):
                           .format(seq=",".join(['?'] * len(metadata_any)))
                 else:
                     # all of the given metadata
-                    params = list(metadata_all)
-                    params.append(len(metadata_all))
+                    params = list(set(metadata_all))    # a tag given twice still is one tag to match
                     sql = "SELECT id, name, uri FROM pyro_names WHERE id IN (SELECT object FROM pyro_metadata WHERE metadata IN ({seq}) " \
-                          "GROUP BY object HAVING COUNT(metadata)=?)".format(seq=",".join(['?'] * len(metadata_all)))
+                          "GROUP BY object HAVING COUNT(metadata)=?)".format(seq=",".join(['?'] * len(params)))
+                    params.append(len(params))
                 result = db.execute(sql, params).fetchall()
                 if return_metadata:
                     names = {}
